@@ -17,6 +17,9 @@ Bound ==
   /\ \A t \in Threads : Len(inj[t].guards) <= MaxInstalls
   /\ \A s \in Sites : ctr[s] <= MaxCtr
 
+\* quick instance of the Regenerate configuration: every function's code is replaced at most once
+RegenOnce == \A f \in Funcs : orig[f][1][1] \in {"o", "r1"}
+
 SpecL == Spec
 
 Invs ==
